@@ -5,7 +5,7 @@
    in-memory transport that records every byte written and answers requests in arrival order with
    a reply derived from the request.
 
-   case input  [ kind ; logs ; calls ; conns ; panics ]
+   case input  [ kind ; logs ; calls ; conns ; panics ; [latency_ms; hooked] ; trace ]
      kind   0 = Client (Modbus TCP framing), 1 = Client (RTU framing over net.Conn), 2 = SerialClient
      logs   one byte string per connection: everything written to it, in order
      calls  [g; k; request bytes; status; reply bytes]
@@ -15,8 +15,16 @@
             was inside, and how often Close arrived between the write of a request and the read of
             its reply
      panics number of recovered panics (callers and the Close/Connect goroutines)
+     latency_ms  slow device: a reply is readable that long after its request (6 callers queue for
+            the lock; the wait exceeds the client's write + read time-out, the exchange does not)
+     hooked 1 = the client was given a recording ClientHooks object that is NOT goroutine-safe
+     trace  its records in the order they were appended: [tag; bytes],
+            tag 0 = BeforeWrite, 1 = AfterEachRead (n > 0), 2 = BeforeParse, 9 = overflow
    outcome  ok [ frames on the wire all whole ; each caller got its own reply ; no panic ;
-                 serialised = no overlapping transport calls, no Close inside an exchange ]
+                 serialised = no overlapping transport calls, no Close inside an exchange ;
+                 hooks_atomic = the trace is a concatenation of per-call blocks
+                   [BeforeWrite req; AfterEachRead chunk*; BeforeParse reply], chunks = reply =
+                   the reply to req, completed blocks = the successful calls ]
             err [7] = the case did not finish (dead- or livelock): always a violation
 
    Which theorem a flag is the runtime face of (Properties/C14.v):
@@ -26,6 +34,11 @@
                  Close / Connect and release is made by the lock holder, and while it holds the lock
                  nobody else takes a step -- so two calls on the transport never overlap and a Close
                  never falls inside an exchange
+     hooks_atomic  hook calls are steps of the lock holder: in the skeleton they are uses of the
+                 locked-use field hooks (LockModel.locked_use_fields), so by C14_well_locked_sound
+                 they are EUse events made while owning the mutex, by C14_mutual_exclusion the
+                 caller is THE holder, and by C14_one_at_a_time nobody else takes a step (makes a
+                 hook call) until the release: the calls of one request form one block
      no panic / no hang: not a theorem of the wire model (the skeleton obligation excludes the
                  unlocked use of conn that leads to the nil dereference; C14_well_locked_sound:
                  complete executions end with the lock released)
@@ -159,6 +172,44 @@ Fixpoint raw_serialised (conns : list val) : bool :=
 Definition raw_no_panic (panics : Z) (calls : list ccall) : bool :=
   Z.eqb panics 0 && forallb (fun c => negb (cc_bad c)) calls.
 
+(* ---- the hook trace ---- *)
+Fixpoint parse_trace (vs : list val) : option (list (Z * list N)) :=
+  match vs with
+  | [] => Some []
+  | VL [VI t; VB b] :: r => match parse_trace r with Some l => Some ((t, b) :: l) | None => None end
+  | _ => None
+  end.
+(* the AfterEachRead chunks at the head of the trace, concatenated, and what follows them *)
+Fixpoint take_chunks (t : list (Z * list N)) : list N * list (Z * list N) :=
+  match t with
+  | (1%Z, b) :: r => let (c, r') := take_chunks r in (b ++ c, r')
+  | _ => ([], t)
+  end.
+(* concatenation of per-call blocks; [want] = requests of the successful calls still to be seen *)
+Fixpoint blocks_ok (fuel : nat) (kind : N) (t : list (Z * list N)) (want : list (list N)) : bool :=
+  match fuel with
+  | O => false
+  | S k =>
+      match t with
+      | [] => match want with [] => true | _ => false end
+      | (0%Z, req) :: r =>
+          let (chunks, r1) := take_chunks r in
+          match r1 with
+          | (2%Z, reply) :: r2 =>
+              list_eqb reply (conc_reply kind req) && list_eqb chunks reply &&
+              match remove_frame req want with Some w' => blocks_ok k kind r2 w' | None => false end
+          | _ => blocks_ok k kind r1 want       (* an exchange that failed after BeforeWrite *)
+          end
+      | _ => false
+      end
+  end.
+Definition raw_hooks (kind : N) (hooked : Z) (trace : list val) (calls : list ccall) : bool :=
+  if Z.eqb hooked 0 then true
+  else match parse_trace trace with
+       | Some t => blocks_ok (S (List.length t)) kind t (map cc_req (filter cc_ok calls))
+       | None => false
+       end.
+
 (* ---- model side ---- *)
 Fixpoint nat_max (l : list nat) : nat := match l with [] => O | x :: r => Nat.max x (nat_max r) end.
 
@@ -167,27 +218,40 @@ Definition conc_reqs (oks : list ccall) (g : nat) : list call :=
 Definition owner_of (oks : list ccall) (f : list N) : option nat :=
   match filter (fun c => list_eqb (cc_req c) f) oks with c :: _ => Some (cc_g c) | [] => None end.
 
-(* along a model run: is every step made by the holder (acquire: is the mutex free)?  Always true by
-   C14_steps_by_holder; computed so that the model side produces the flag rather than assumes it *)
-Fixpoint sched_serialised (reply_of : frm -> frm) (dec : list N -> list frm) (sched : list nat) (s : cst) : bool :=
+(* one model run under a schedule, observed: the final state; whether every step was made by the
+   holder (acquire: while the mutex was free) -- always true by C14_steps_by_holder, computed so that
+   the model side produces the flag rather than assumes it; and the hook calls, which are made inside
+   the holder's own steps: BeforeWrite with the acquire of a request call (before its first write),
+   AfterEachRead with its read, BeforeParse before its release *)
+Fixpoint run_observed (reply_of : frm -> frm) (dec : list N -> list frm) (sched : list nat) (s : cst)
+  : cst * bool * list (Z * list N) :=
   match sched with
-  | [] => true
+  | [] => (s, true, [])
   | i :: r =>
       match step_fun reply_of dec s i with
       | Some (a, s') =>
-          match a, c_owner s with
-          | AAcq _, None => true
-          | AAcq _, Some _ => false
-          | _, Some j => Nat.eqb j i
-          | _, None => false
-          end && sched_serialised reply_of dec r s'
-      | None => sched_serialised reply_of dec r s
+          let by_holder := match a, c_owner s with
+                           | AAcq _, None => true
+                           | AAcq _, Some _ => false
+                           | _, Some j => Nat.eqb j i
+                           | _, None => false
+                           end in
+          let hk := match a, ph (callers s i) with
+                    | AAcq (CDo f), _ => [(0%Z, f)]
+                    | ARead (Some rep), _ => [(1%Z, rep)]
+                    | ARel, PGot _ (Some rep) => [(2%Z, rep)]
+                    | _, _ => []
+                    end in
+          match run_observed reply_of dec r s' with
+          | (sf, ok, ht) => (sf, by_holder && ok, hk ++ ht)
+          end
+      | None => run_observed reply_of dec r s
       end
   end.
 
 Definition run_conc (args : list val) : val :=
   match args with
-  | [VI kind; VL logs; VL calls; VL _; VI _] =>
+  | [VI kind; VL logs; VL calls; VL _; VI _; VL _; VL _] =>
       match parse_logs logs, parse_calls calls with
       | Some ls, Some cs =>
           let kd := Z.to_N kind in
@@ -202,7 +266,7 @@ Definition run_conc (args : list val) : val :=
           let ng := S (nat_max (map cc_g oks)) in
           let tail := flat_map (fun g => flat_map (fun c => repeat g (List.length (cc_req c) + 3))
                                                    (filter (fun c => Nat.eqb (cc_g c) g) oks)) (seq 0 ng) in
-          let s := run_schedule (conc_reply kd) dec (sched ++ tail) (cinit (conc_reqs oks)) in
+          let '(s, ser, ht) := run_observed (conc_reply kd) dec (sched ++ tail) (cinit (conc_reqs oks)) in
           let all_results := flat_map (fun g => results (callers s g)) (seq 0 ng) in
           let whole := match c_owner s with None => true | Some _ => false end &&
                        match conc_leftover kd (wire s) with [] => true | _ => false end &&
@@ -211,8 +275,8 @@ Definition run_conc (args : list val) : val :=
                      forallb (fun x => match snd x with
                                        | Some r => list_eqb r (conc_reply kd (fst x))
                                        | None => false end) all_results in
-          let ser := sched_serialised (conc_reply kd) dec (sched ++ tail) (cinit (conc_reqs oks)) in
-          v_ok [vbool whole; vbool own; vbool true; vbool ser]
+          let hooks := blocks_ok (S (List.length ht)) kd ht (map cc_req oks) in
+          v_ok [vbool whole; vbool own; vbool true; vbool ser; vbool hooks]
       | _, _ => v_bad
       end
   | _ => v_bad
@@ -221,12 +285,13 @@ Definition run_conc (args : list val) : val :=
 Definition verdict_conc (p : N) (args : list val) (o : val) : N :=
   if p =? 14 then
     match args with
-    | [VI kind; VL logs; VL calls; VL conns; VI panics] =>
+    | [VI kind; VL logs; VL calls; VL conns; VI panics; VL [VI _; VI hooked]; VL trace] =>
         match parse_logs logs, parse_calls calls with
         | Some ls, Some cs =>
             let kd := Z.to_N kind in
-            if val_eqb o (v_ok [vbool true; vbool true; vbool true; vbool true]) &&
-               raw_whole kd ls cs && raw_own kd cs && raw_no_panic panics cs && raw_serialised conns
+            if val_eqb o (v_ok [vbool true; vbool true; vbool true; vbool true; vbool true]) &&
+               raw_whole kd ls cs && raw_own kd cs && raw_no_panic panics cs && raw_serialised conns &&
+               raw_hooks kd hooked trace cs
             then HOLDS else VIOLATES
         | _, _ => VIOLATES
         end
@@ -247,3 +312,13 @@ Example conc_decode_tcp :
   conc_decode 0 ([0; 7; 0; 0; 0; 6; 1; 3; 0; 16; 0; 2] ++ [0; 8; 0; 0; 0; 6; 1; 6; 0; 1; 0; 9])
   = [[0; 7; 0; 0; 0; 6; 1; 3; 0; 16; 0; 2]; [0; 8; 0; 0; 0; 6; 1; 6; 0; 1; 0; 9]].
 Proof. vm_compute. reflexivity. Qed.
+
+(* the observed run is the scheduler of ClientConcModel (whose steps are steps of the relation:
+   ClientConcProofs.step_fun_sound / run_schedule_reach) with two observations added *)
+Lemma run_observed_state reply_of dec : forall sched s,
+  fst (fst (run_observed reply_of dec sched s)) = run_schedule reply_of dec sched s.
+Proof.
+  induction sched as [|i sched IH]; intros s; [reflexivity|].
+  cbn [run_observed run_schedule]. destruct (step_fun reply_of dec s i) as [[a s']|]; [|apply IH].
+  specialize (IH s'). destruct (run_observed reply_of dec sched s') as [[sf ok] ht]. exact IH.
+Qed.
